@@ -667,11 +667,11 @@ def search(ctx):
             aff = np.clip(aff, 1e-3, 1 - 1e-3)
         sal, skind = tu.gen_saliency(rng, (F, N))
         if nd3:
-            wca = [-1, (-1,), -3, (-3,), (-3, -1), [-3, -1], -2, 1, 2, 0, (0,), (0, 2), (-2,), (-3, -2, -1)][int(rng.integers(14))]
+            wca = [-1, (-1,), -3, (-3,), (-3, -1), [-3, -1], -2, 1, 2, 0, (0,), (0, 2), (-2,), (-3, -2, -1), (1,), (1, 2), (0, 1, 2), (0, 1), (-3, 1)][int(rng.integers(19))]
         else:
             aff = aff[0]
             sal = None if sal is None else sal[0]
-            wca = [-1, (-1,), -2, 0, 1, (-2,)][int(rng.integers(6))]
+            wca = [-1, (-1,), -2, 0, 1, (-2,), (0,), (0, 1), (1,)][int(rng.integers(9))]
         ctx.count(f'weight-wca:{wca}-sal:{"yes" if sal is not None else "no"}')
         ctx.run(mixture_weight, affiliation=aff, saliency=sal, weight_constant_axis=list(wca) if isinstance(wca, (tuple, list)) else wca,
                 as_list=isinstance(wca, list))
